@@ -197,10 +197,32 @@ def storeL (H : Bytes → Bytes) (withDb force : Bool) (cached : Option Bytes) (
   let e := encC collapsed
   if e.length < 32 && !force then (collapsed, none, st)
   else
-    let h := match cached with
-      | some h => h
-      | none => H e
+    let h := cached.getD (H e)
     (.hashRef h, some h, if withDb then dbInsert st h collapsed else st)
+
+/-- the head of `hasher.hash`: use the cached hash (`n` = the node itself) -/
+def cacheHit (gen limit : Nat) (withDb : Bool) (fl : Flag) (n : LNode) (st : Store) : Option (CNode × LNode × Store) :=
+  match fl.hash with
+  | some h =>
+    if !withDb then some (.hashRef h, n, st)
+    else if canUnload fl gen limit then some (.hashRef h, .hash h, st)     -- unload
+    else if !fl.dirty then some (.hashRef h, n, st)
+    else none
+  | none => none
+
+/-- flags of the cached copy after `store` -/
+def hashedFlag (withDb : Bool) (fl : Flag) (h : Option Bytes) : Flag :=
+  { hash := h, gen := fl.gen, dirty := if withDb then false else fl.dirty }
+
+def valueBytesL : LNode → Bytes
+  | .value b => b
+  | _ => []
+
+/-- `hashChildren` on a short node: a value child is kept, anything else replaced by its reference -/
+def shortKid (ck : Bytes) (v : LNode) (c : CNode × LNode × Store) : CNode × LNode × Store :=
+  match v with
+  | .value b => (.leaf ck b, .value b, c.2.2)
+  | _ => (.ext ck c.1, c.2.1, c.2.2)
 
 mutual
 /-- `hasher.hash(n, db, force)`: (what the parent embeds, replacement for `n`, store) -/
@@ -209,57 +231,26 @@ def hashL (H : Bytes → Bytes) (gen limit : Nat) (withDb : Bool) : LNode → Bo
   | .value b, _, st => (.leaf [] b, .value b, st)      -- not reachable: value nodes are skipped by hashChildren
   | .hash h, _, st => (.hashRef h, .hash h, st)
   | .short k v fl, force, st =>
-    let cachedHit : Option (CNode × LNode × Store) :=
-      match fl.hash with
-      | some h =>
-        if !withDb then some (.hashRef h, .short k v fl, st)
-        else if canUnload fl gen limit then some (.hashRef h, .hash h, st)
-        else if !fl.dirty then some (.hashRef h, .short k v fl, st)
-        else none
-      | none => none
-    match cachedHit with
+    match cacheHit gen limit withDb fl (.short k v fl) st with
     | some r => r
     | none =>
-      -- hashChildren
-      let r : CNode × LNode × Store :=
-        match v with
-        | .value b => (.leaf (hexToCompact k) b, .value b, st)
-        | .nil => (.ext (hexToCompact k) .empty, .nil, st)
-        | .hash h => (.ext (hexToCompact k) (.hashRef h), .hash h, st)
-        | .short k' v' fl' =>
-          let c := hashL H gen limit withDb (.short k' v' fl') false st
-          (.ext (hexToCompact k) c.1, c.2.1, c.2.2)
-        | .full cs' fl' =>
-          let c := hashL H gen limit withDb (.full cs' fl') false st
-          (.ext (hexToCompact k) c.1, c.2.1, c.2.2)
+      -- hashChildren (`hashL` on a value child is the identity on the store; `shortKid` ignores its result)
+      let r := shortKid (hexToCompact k) v (hashL H gen limit withDb v false st)
       let s := storeL H withDb force fl.hash r.1 r.2.2
-      (s.1, .short k r.2.1 { hash := s.2.1, gen := fl.gen, dirty := if withDb then false else fl.dirty }, s.2.2)
+      (s.1, .short k r.2.1 (hashedFlag withDb fl s.2.1), s.2.2)
   | .full cs fl, force, st =>
-    let cachedHit : Option (CNode × LNode × Store) :=
-      match fl.hash with
-      | some h =>
-        if !withDb then some (.hashRef h, .full cs fl, st)
-        else if canUnload fl gen limit then some (.hashRef h, .hash h, st)
-        else if !fl.dirty then some (.hashRef h, .full cs fl, st)
-        else none
-      | none => none
-    match cachedHit with
+    match cacheHit gen limit withDb fl (.full cs fl) st with
     | some r => r
     | none =>
       let r := hashLs H gen limit withDb cs 0 st
-      let v : Bytes := match cs.getD 16 .nil with
-        | .value b => b
-        | _ => []
-      let s := storeL H withDb force fl.hash (.branch r.1 v) r.2.2
-      (s.1, .full r.2.1 { hash := s.2.1, gen := fl.gen, dirty := if withDb then false else fl.dirty }, s.2.2)
+      let s := storeL H withDb force fl.hash (.branch r.1 (valueBytesL (cs.getD 16 .nil))) r.2.2
+      (s.1, .full r.2.1 (hashedFlag withDb fl s.2.1), s.2.2)
 /-- children `i..`: slots 0..15 are hashed, the value slot is copied -/
 def hashLs (H : Bytes → Bytes) (gen limit : Nat) (withDb : Bool) : List LNode → Nat → Store → List CNode × List LNode × Store
   | [], _, st => ([], [], st)
   | c :: cs, i, st =>
     if i < 16 then
-      let r := match c with
-        | .nil => (CNode.empty, LNode.nil, st)
-        | c => hashL H gen limit withDb c false st
+      let r := hashL H gen limit withDb c false st
       let rs := hashLs H gen limit withDb cs (i + 1) r.2.2
       (r.1 :: rs.1, r.2.1 :: rs.2.1, rs.2.2)
     else
